@@ -1,22 +1,30 @@
 use crate::common::*;
-use crate::props::c09::*;
 use std::time::Instant;
 pub fn check(rep: &mut Report) {
-    let defs = scaffold();
-    let mut ctx = prelude_ctx();
-    for d in &defs {
-        let src = render_def(d);
+    let mut ctx = fresh_builtin_ctx();
+    let r = run(&mut ctx, "use core::functions\nuse core::lists\nuse math::statistics\nuse math::geometry\nuse units::si");
+    println!("{:?}", r.err_string());
+    run(&mut ctx, "fn fu(x, y) = x * y + abs(x * y)");
+    for call in ["fu(3 m, 5 s)", "fu(true, 2)", "2"] {
         let t = Instant::now();
-        let r = run(&mut ctx, &src);
-        println!("{:?} {:.3}s :: {}", r.is_ok(), t.elapsed().as_secs_f64(), src.replace('\n', " "));
-    }
-    for e in ["1", "xv", "pv.a", "true", "xs", "ff", "gv", "pv", "fact"] {
-        let mut c = ctx.clone();
-        println!("running {e}");
+        for _ in 0..2000 {
+            let r = run(&mut ctx, call);
+            std::hint::black_box(r);
+        }
+        println!("run {call}: {:.1} us", t.elapsed().as_secs_f64() / 2000.0 * 1e6);
         let t = Instant::now();
-        let r = run(&mut c, e);
-        println!("  {} {:.3}s", r.fingerprint(), t.elapsed().as_secs_f64());
+        for _ in 0..2000 {
+            let mut settings = numbat::InterpreterSettings { print_fn: Box::new(|_| {}) };
+            let r = ctx.interpret_with_settings(&mut settings, call, numbat::resolver::CodeSource::Text).is_ok();
+            std::hint::black_box(r);
+        }
+        println!("bare {call}: {:.1} us", t.elapsed().as_secs_f64() / 2000.0 * 1e6);
     }
+    let t = Instant::now();
+    for _ in 0..200 {
+        std::hint::black_box(ctx.clone());
+    }
+    println!("clone: {:.1} us", t.elapsed().as_secs_f64() / 200.0 * 1e6);
     rep.states = 1; rep.transitions = 1;
 }
 pub fn replay(_c: &serde_json::Value) -> i32 { 2 }
